@@ -1,6 +1,6 @@
 (* Pinned statements of the C13 theorems: a changed statement no longer type-checks here. *)
 From BT Require Import Base.Util Base.Float Model.RTree Model.BBIFile Model.BigWigWrite Model.Accept
-  Proofs.RTreeShape Proofs.AcceptParse Proofs.AcceptRules Proofs.WriterTotal.
+  Proofs.RTreeShape Proofs.AcceptParse Proofs.AcceptRules Proofs.AcceptParallel Proofs.WriterTotal.
 From BT Require Properties.C13.
 Local Open Scope N_scope.
 Check (C13.C13_bw_accept_iff : forall fp o sizes input, opts_ok o = true ->
@@ -27,6 +27,14 @@ Check (C13.C13_bb_text : forall o sizes text,
   (all_ok (bb_lines text) = None -> exists k, bb_text_serial o sizes text = Err k)
   /\ (forall items, all_ok (bb_lines text) = Some items ->
       bb_text_serial o sizes text = rule_verdict bb_val_class (o_sort_all o) sizes items)).
+Check (C13.C13_serial_eq_parallel_verdict : forall (V : Type) (vclass : N -> V -> option V -> option N) sort_all sizes
+    (l : list (pline V)), l <> [] ->
+  (serial (chk_of vclass) sort_all sizes l = Ok tt <-> parallel (chk_of vclass) sort_all sizes (line_runs l) = Ok tt)
+  /\ plain (parallel (chk_of vclass) sort_all sizes (line_runs l))
+  /\ plain (serial (chk_of vclass) sort_all sizes l)).
+Check (C13.C13_text_serial_eq_parallel : forall fok o sizes text, lines_of text <> [] ->
+  (bw_text_serial fok o sizes text = Ok tt <-> bw_text_parallel fok o sizes text = Ok tt)
+  /\ (bb_text_serial o sizes text = Ok tt <-> bb_text_parallel o sizes text = Ok tt)).
 Check (C13.C13_parse_u32 : forall s n,
   parse_u32 s = Some n <->
   exists body, (s = body \/ s = 43 :: body) /\ body <> [] /\ forallb is_digit body = true
